@@ -155,8 +155,9 @@ def run(ctx, res):
             calls = []
             from ..analysis import walk_exprs
             walk_exprs(body, lambda e: calls.append(e) if e.get("k") == "Call" else None)
-            okf = len(calls) == 1 and calls[0].get("fn") == "std::convert::TryFrom::try_from" and \
-                len(calls[0]["args"]) == 1 and _is_self(calls[0]["args"][0])
+            # `P::try_from(self)`, or the same through the blanket `TryInto` impl (`self.try_into()`)
+            conv = [c for c in calls if c.get("fn") in ("std::convert::TryFrom::try_from", "std::convert::TryInto::try_into")]
+            okf = len(calls) == 1 and len(conv) == 1 and len(conv[0]["args"]) == 1 and _is_self(conv[0]["args"][0])
             res.ob(okf, "conversion-shape", it["def"], f"{short(src_adt)}::try_as::<P>() is exactly P::try_from(self)")
             n_fw += 1
     for u in unknown:
